@@ -7,11 +7,11 @@ Require Import PyStr PyInt Sexp Xml M_C09 M_C08 Ns Table M_Parse T_Parse M_Write
 Import ListNotations.
 Open Scope char_scope.
 
-Fixpoint alookup (k : str) (l : list (str * aval)) : option aval :=
-  match l with [] => None | (a, v) :: t => if str_eqb a k then Some v else alookup k t end.
-Lemma node_attr_alookup k r : node_attr k r = alookup k (nr_attrs r).
+Fixpoint avlookup (k : str) (l : list (str * aval)) : option aval :=
+  match l with [] => None | (a, v) :: t => if str_eqb a k then Some v else avlookup k t end.
+Lemma node_attr_avlookup k r : node_attr k r = avlookup k (nr_attrs r).
 Proof. unfold node_attr. induction (nr_attrs r) as [|[a v] t IH]; [reflexivity|]. cbn. destruct (str_eqb a k); [reflexivity|exact IH]. Qed.
-Lemma alookup_app k a b : alookup k (a ++ b) = match alookup k a with Some v => Some v | None => alookup k b end.
+Lemma alookup_app k a b : avlookup k (a ++ b) = match avlookup k a with Some v => Some v | None => avlookup k b end.
 Proof. induction a as [|[x v] a IH]; [reflexivity|]. cbn. destruct (str_eqb x k); [reflexivity|exact IH]. Qed.
 Lemma str_eqb_sym a b : str_eqb a b = str_eqb b a.
 Proof. destruct (str_eqb a b) eqn:E.
@@ -29,7 +29,7 @@ Section Attrs.
              if str_eqb (fst kv) (lit "NodeId") || str_eqb (fst kv) (lit "BrowseName") || mem_str (fst kv) NODE_REF_ATTRS then Ok []
              else rmap (fun a => [(fst kv, a)]) (cast_attr (fst kv) (snd kv) nsmap amap).
   Lemma refattrs_lookup a : forall ks out, rsequence (map f ks) = Ok out ->
-    alookup a (concat out) =
+    avlookup a (concat out) =
     if mem_str a ks then match lookup_attr a attrs with Some v => match parse_id v nsmap amap with Ok n => Some (ANode n) | Err _ => None end | None => None end else None.
   Proof.
     induction ks as [|k ks IH]; intros out H.
@@ -39,11 +39,11 @@ Section Attrs.
       cbn [concat]. rewrite alookup_app. specialize (IH o eq_refl). cbn [mem_str existsb]. fold (mem_str a ks).
       unfold f in Ef. destruct (str_eqb a k) eqn:Eak.
       + apply str_eqb_eq in Eak. subst k. cbn [orb]. destruct (lookup_attr a attrs) as [v|].
-        * destruct (parse_id v nsmap amap) as [n|]; [|discriminate]. cbn [rmap] in Ef. injection Ef as <-. cbn [alookup]. now rewrite str_eqb_refl.
-        * injection Ef as <-. cbn [alookup]. rewrite IH. destruct (mem_str a ks); reflexivity.
-      + cbn [orb]. assert (alookup a x = None) as ->; [|exact IH].
+        * destruct (parse_id v nsmap amap) as [n|]; [|discriminate]. cbn [rmap] in Ef. injection Ef as <-. cbn [avlookup]. now rewrite str_eqb_refl.
+        * injection Ef as <-. cbn [avlookup]. rewrite IH. destruct (mem_str a ks); reflexivity.
+      + cbn [orb]. assert (avlookup a x = None) as ->; [|exact IH].
         destruct (lookup_attr k attrs) as [v|]; [|injection Ef as <-; reflexivity].
-        destruct (parse_id v nsmap amap); [|discriminate]. cbn [rmap] in Ef. injection Ef as <-. cbn [alookup]. rewrite str_eqb_sym, Eak. reflexivity.
+        destruct (parse_id v nsmap amap); [|discriminate]. cbn [rmap] in Ef. injection Ef as <-. cbn [avlookup]. rewrite str_eqb_sym, Eak. reflexivity.
   Qed.
   Lemma refattrs_ok a v : forall ks out, rsequence (map f ks) = Ok out -> mem_str a ks = true -> lookup_attr a attrs = Some v ->
     exists n, parse_id v nsmap amap = Ok n.
@@ -68,40 +68,40 @@ Section Attrs.
              if str_eqb (fst kv) (lit "NodeId") || str_eqb (fst kv) (lit "BrowseName") || mem_str (fst kv) NODE_REF_ATTRS then Ok []
              else rmap (fun a => [(fst kv, a)]) (cast_attr (fst kv) (snd kv) nsmap amap).
   Lemma others_lookup a : forall l out, rsequence (map g l) = Ok out ->
-    alookup a (concat out) =
+    avlookup a (concat out) =
     if own_column a || mem_str a NODE_REF_ATTRS then None
     else match lookup_attr a l with Some v => match cast_attr a v nsmap amap with Ok x => Some x | Err _ => None end | None => None end.
   Proof.
     induction l as [|[k v] l IH]; intros out H.
-    - cbn in H. injection H as <-. cbn [concat alookup lookup_attr]. destruct (own_column a || mem_str a NODE_REF_ATTRS); reflexivity.
+    - cbn in H. injection H as <-. cbn [concat avlookup lookup_attr]. destruct (own_column a || mem_str a NODE_REF_ATTRS); reflexivity.
     - cbn [map rsequence] in H. destruct (g (k, v)) as [x|] eqn:Eg; [|discriminate]. cbn [rbind] in H.
       destruct (rsequence (map g l)) as [o|] eqn:Er; [|discriminate]. cbn [rmap] in H. injection H as <-.
       cbn [concat]. rewrite alookup_app. specialize (IH o eq_refl). cbn [lookup_attr]. unfold g in Eg. cbn [fst snd] in Eg.
       destruct (str_eqb k a) eqn:Eka.
       + apply str_eqb_eq in Eka. subst k. fold (own_column a) in Eg. destruct (own_column a || mem_str a NODE_REF_ATTRS) eqn:Es.
-        * injection Eg as <-. cbn [alookup]. exact IH.
-        * destruct (cast_attr a v nsmap amap) as [y|]; [|discriminate]. cbn [rmap] in Eg. injection Eg as <-. cbn [alookup]. now rewrite str_eqb_refl.
-      + assert (alookup a x = None) as ->; [|exact IH].
+        * injection Eg as <-. cbn [avlookup]. exact IH.
+        * destruct (cast_attr a v nsmap amap) as [y|]; [|discriminate]. cbn [rmap] in Eg. injection Eg as <-. cbn [avlookup]. now rewrite str_eqb_refl.
+      + assert (avlookup a x = None) as ->; [|exact IH].
         destruct (_ || _) in Eg; [injection Eg as <-; reflexivity|].
-        destruct (cast_attr k v nsmap amap); [|discriminate]. cbn [rmap] in Eg. injection Eg as <-. cbn [alookup]. now rewrite Eka.
+        destruct (cast_attr k v nsmap amap); [|discriminate]. cbn [rmap] in Eg. injection Eg as <-. cbn [avlookup]. now rewrite Eka.
   Qed.
 End Attrs.
 
 Lemma bools_lookup a cols attrs :
-  alookup a (flat_map (fun c => if mem_str c cols && negb (has_attr c attrs) then [(c, ABool false)] else []) BOOL_COLS)
+  avlookup a (flat_map (fun c => if mem_str c cols && negb (has_attr c attrs) then [(c, ABool false)] else []) BOOL_COLS)
   = if mem_str a BOOL_COLS && mem_str a cols && negb (has_attr a attrs) then Some (ABool false) else None.
 Proof.
   unfold BOOL_COLS. cbn [map flat_map app mem_str existsb]. rewrite orb_false_r.
   destruct (str_eqb a (lit "IsAbstract")) eqn:E1; [apply str_eqb_eq in E1; subst a|].
-  - cbn [orb andb]. destruct (mem_str (lit "IsAbstract") cols && negb (has_attr (lit "IsAbstract") attrs)) eqn:E; cbn [app alookup].
+  - cbn [orb andb]. destruct (mem_str (lit "IsAbstract") cols && negb (has_attr (lit "IsAbstract") attrs)) eqn:E; cbn [app avlookup].
     + reflexivity.
     + destruct (mem_str (lit "Symmetric") cols && negb (has_attr (lit "Symmetric") attrs)); reflexivity.
   - destruct (str_eqb a (lit "Symmetric")) eqn:E2; [apply str_eqb_eq in E2; subst a|].
-    + cbn [orb andb]. destruct (mem_str (lit "IsAbstract") cols && negb (has_attr (lit "IsAbstract") attrs)); cbn [app alookup];
+    + cbn [orb andb]. destruct (mem_str (lit "IsAbstract") cols && negb (has_attr (lit "IsAbstract") attrs)); cbn [app avlookup];
         destruct (mem_str (lit "Symmetric") cols && negb (has_attr (lit "Symmetric") attrs)); reflexivity.
     + cbn [orb andb]. rewrite str_eqb_sym in E1. rewrite str_eqb_sym in E2.
       destruct (mem_str (lit "IsAbstract") cols && negb (has_attr (lit "IsAbstract") attrs));
-        destruct (mem_str (lit "Symmetric") cols && negb (has_attr (lit "Symmetric") attrs)); cbn [app alookup]; rewrite ?E1, ?E2; reflexivity.
+        destruct (mem_str (lit "Symmetric") cols && negb (has_attr (lit "Symmetric") attrs)); cbn [app avlookup]; rewrite ?E1, ?E2; reflexivity.
 Qed.
 Lemma cast_ref a v nsmap amap : mem_str a NODE_REF_ATTRS = true -> cast_attr a v nsmap amap = rmap ANode (parse_id v nsmap amap).
 Proof. unfold cast_attr. now intros ->. Qed.
@@ -126,7 +126,7 @@ Proof.
   destruct (split_browsename bn nsmap) as [nb|]; [|discriminate]. cbn [rbind].
   destruct (rsequence (map _ (ne_attrs e))) as [others|] eqn:Eo; [|discriminate]. cbn [rbind].
   set (bools := flat_map _ BOOL_COLS). intros H a. injection H as <- _.
-  rewrite node_attr_alookup. cbn [nr_attrs]. rewrite !alookup_app.
+  rewrite node_attr_avlookup. cbn [nr_attrs]. rewrite !alookup_app.
   rewrite (refattrs_lookup nsmap amap (ne_attrs e) a _ _ Era). rewrite (others_lookup nsmap amap a _ _ Eo). subst bools. rewrite bools_lookup.
   pose proof (fun v (H : lookup_attr a (ne_attrs e) = Some v) => H) as _.
   unfold has_attr. destruct (lookup_attr a (ne_attrs e)) as [v|] eqn:El.
